@@ -70,6 +70,11 @@ def toCss : WS → String
 def ofCss? (s : String) : Option WS := all.find? (fun w => w.toCss == s)
 end WS
 
+/-- Computed values of `text-transform`. -/
+inductive TT where
+  | none | capitalize | uppercase | lowercase | fullWidth
+  deriving Repr, DecidableEq, BEq, Inhabited
+
 /-- Unicode general category, first letter (`unicodedata.category(c)[0]`). -/
 inductive UCat where
   | L | M | N | P | S | Z | C
